@@ -14,7 +14,8 @@ def words(code):
 def run(ctx):
     impl.load()
     rng = ctx.rng("c09")
-    ctx.rule = ("generated programs of the relocation fragment (address +- number, differences of addresses, numbers) in 1-3 files, "
+    ctx.rule = ("generated programs of the relocation fragment (address +- number, differences of addresses, numbers) in 1-3 files, 40% with an "
+                "included file that refers to the including file's exported labels, "
                 "each linked at three bases that are multiples of 16, one of them close to the top of the address space so that "
                 "addresses wrap through 0o177777; a sub-stream without absolute references must be byte-identical. distinct = distinct "
                 "program texts; non-trivial = at least one word of the image moves, or the program is in the position-independent stream")
@@ -25,11 +26,20 @@ def run(ctx):
         feat = {"linear": True, "pic": pic, "export": 0.1, "skip": not pic}
         nfiles = rng.choice([1, 1, 2, 3])
         texts = []
-        for i in range(nfiles):
-            g = ProgramGen(rng, tag="" if i == 0 else "_%d" % i, features=feat, n_stmts=rng.randint(6, 30))
+        with_inc = rng.random() < 0.4
+        inc_text = None
+        pool0 = []
+        for i in list(range(nfiles)) + (["inc"] if with_inc else []):
+            if i == "inc":
+                # an included file that refers to the including file's exported labels (and nothing else outside)
+                g = ProgramGen(rng, tag="_i", features=feat, n_stmts=rng.randint(4, 14), extern_pool=pool0)
+            else:
+                g = ProgramGen(rng, tag="" if i == 0 else "_%d" % i, features=dict(feat, export=1.0) if (with_inc and i == 0) else feat, n_stmts=rng.randint(6, 30))
             items = g.generate()
+            if i == 0:
+                pool0 = list(g.planned_labels)
             if pic:
-                labels = set(g.planned_labels)
+                labels = set(g.planned_labels) | (set(pool0) if i == "inc" else set())
 
                 def coef(e):
                     if e[0] == "sym":
@@ -49,9 +59,27 @@ def run(ctx):
                 for item in items + [b for it2 in items if it2["kind"] == "repeat" for b in it2["body"]]:
                     if item["kind"] == "dir" and item["name"] in (".word", "implicit", ".dword"):
                         item["args"] = [a if coef(a) == 0 else ("lit", rng.randrange(0, 500)) for a in item["args"]]
-            texts.append(render(items, rng))
+            if i == "inc":
+                inc_text = render(items, rng)
+            else:
+                texts.append(render(items, rng))
+        d = None
+        if with_inc:
+            d = impl.scratch_dir()
+            with open(os.path.join(d, "inc.mac"), "w", encoding="utf-8") as f:
+                f.write(inc_text)
+            lines = texts[0].split("\n")
+            depth, slots = 0, [0]
+            for j, ln in enumerate(lines):
+                depth += ln.count("{") - ln.count("}")
+                if depth == 0:
+                    slots.append(j + 1)
+            lines.insert(rng.choice(slots), ".even\n.include \"inc.mac\"\n.even")
+            texts[0] = "\n".join(lines)
+            ctx.count("programs with an included file")
+        root = d or "/w"
         b1 = rng.randrange(0, 0o1700) * 16
-        probe = impl.assemble([("/w/f%d.mac" % i, (".link %o\n" % b1 if i == 0 else "") + t) for i, t in enumerate(texts)])
+        probe = impl.assemble([(root + "/f%d.mac" % i, (".link %o\n" % b1 if i == 0 else "") + t) for i, t in enumerate(texts)])
         length = len(probe.code) if probe.outcome == "ok" else 0
         # an absolute address word must fit 16 bits: unless the program is position-independent it is
         # placed so that it ends just below the top of the address space; position-independent code
@@ -60,11 +88,14 @@ def run(ctx):
         bases = [b1, rng.randrange(0, 0o7000) * 16, max(top, 0)]
         results = []
         for b in bases:
-            files = [("/w/f%d.mac" % i, (".link %o\n" % b if i == 0 else "") + t) for i, t in enumerate(texts)]
+            files = [(root + "/f%d.mac" % i, (".link %o\n" % b if i == 0 else "") + t) for i, t in enumerate(texts)]
             r = impl.assemble(files)
-            results.append((b, files, r))
-            reqs.append(asmrun.asm_request(files, len(files)))
-            jobs.append((files, r))
+            mfiles = [("/w/f%d.mac" % i, t) for i, (_p, t) in enumerate(files)] + ([("/w/inc.mac", inc_text)] if with_inc else [])
+            results.append((b, mfiles, r))
+            reqs.append(asmrun.asm_request(mfiles, len(files)))
+            jobs.append((mfiles, r))
+        if d:
+            impl.drop_scratch(d)
         inp = {"files": [(p, t) for p, t in results[0][1]], "bases": bases}
         ctx.count("pic-stream" if pic else "general-stream")
         if any(r.outcome in ("crash", "hang") for _, _, r in results):
